@@ -28,7 +28,8 @@ Inductive sev :=
 | SEmptyDB (db : string)
 | SUnknownDirective (f : path) (line col : nat) (spelling : string)
 | SMissingInclude (f : path) (line : nat) (name : path) (angle : bool)
-| SMissingForced (f : path) (name : path).
+| SMissingForced (f : path) (name : path)
+| SBadCommand (e : string).        (* never asked for by S: such command lines are outside its domain *)
 
 (* directives that may be ignored without a word *)
 Definition harmless : list string := ["line"; "warning"; "error"].
@@ -37,11 +38,13 @@ Section Tables.
 Variable base_options : list (string * bool).
 Variable compilers : list (string * option string * list string * list (string * bool) * nat).
 Variable source_extensions : list string.
+Variable optional_value : list string.
 
 (* ---------- the database ---------- *)
+(* registered: the flag itself, or a value glued to a one-letter flag that takes a (possibly optional) one *)
 Definition registered (opts : list (string * bool)) (t : string) : bool :=
   existsb (fun o => String.eqb (fst o) t) opts
-  || existsb (fun o => snd o && Nat.eqb (String.length (fst o)) 2 && String.prefix (fst o) t) opts.
+  || existsb (fun o => glue_ok optional_value o && Nat.eqb (String.length (fst o)) 2 && String.prefix (fst o) t) opts.
 Definition separate_arg (opts : list (string * bool)) (t : string) : bool :=
   existsb (fun o => String.eqb (fst o) t && snd o) opts.
 (* the option tokens of a command that are not registered; the token after a flag that
@@ -67,21 +70,21 @@ Fixpoint args_complete (opts : list (string * bool)) (toks : list string) : bool
   end.
 
 (* the tokens for which the declarative reading of a command line is claimed: a flag token
-   either is registered exactly, or glues an argument to exactly one registered one-letter flag
-   that takes one, or matches nothing at all; it is NOT an abbreviation (proper prefix) of a
-   registered flag, and no text is glued to a one-letter flag that takes no argument *)
+   either is registered exactly, or glues a value to exactly one registered one-letter flag
+   that takes one (possibly optional), or matches nothing at all; it is NOT an abbreviation
+   (proper prefix) of a registered flag, it is not ambiguous, and no text is glued to a
+   one-letter flag that takes no value *)
 Definition plain_tok (opts : list (string * bool)) (t : string) : bool :=
   if negb (starts_dash t) then true else
   match find (fun o => String.eqb (fst o) t) opts with
   | Some (_, b) => Bool.eqb b (separate_arg opts t)
   | None =>
-      let short := filter (fun o => Nat.eqb (String.length (fst o)) 2 && String.prefix (fst o) t) opts in
-      let abbr := filter (fun o => String.prefix t (fst o)) opts in
-      if double_dash t then match short with [] => true | _ => false end
-      else match short, abbr with
-           | [], [] => true
-           | [(_, takes)], [] => takes
-           | _, _ => false
+      if double_dash t then
+        match filter (fun o => Nat.eqb (String.length (fst o)) 2 && String.prefix (fst o) t) opts with [] => true | _ => false end
+      else match tok_matches opts t with
+           | [] => true
+           | [o] => Nat.eqb (String.length (fst o)) 2 && glue_ok optional_value o
+           | _ => false
            end
   end.
 
